@@ -29,14 +29,16 @@ def parseMode : String → R Mode
 /-- replay one slot on tokens: the candidate of step `t` is token `t+1`, the statistics slice of
 step `t` is token `1000000+t`, the initial preconditioner is token `0`. -/
 def traceWith {π : Type} [BEq π] (sel : Selector π) (tok : Nat → π) (show_ : π → Json)
-    (thr : XF) (itv : Nat) (init : XF) (errs : List XF) (reuse : Bool := false) : Json :=
+    (thr : XF) (itv : Nat) (init : XF) (errs : List XF) (reuse : Bool := false) (rf : Option Nat := none) : Json :=
   let rec go (t : Nat) (s : Slot π) (es : List XF) (acc : Array Json) : Array Json :=
     match es with
     | [] => acc
     | e :: es =>
       let i : Inp π := { cand := tok (t + 1), err := e, junk := tok (1000000 + t) }
       -- warm start: the root reads the stored value (its token result does not depend on it)
-      let s' := if reuse then slotStepDep sel thr itv t (fun _ _ => i) s else slotStep sel thr itv t s i
+      let s' := match rf with
+        | some _ => slotStepReset sel thr itv rf (fun _ => tok 999999) t (fun _ _ => i) s   -- periodically reset warm start
+        | none => if reuse then slotStepDep sel thr itv t (fun _ _ => i) s else slotStep sel thr itv t s i
       let o := obj [
         ("perform", Json.bool (performStep itv t)),
         ("kept", Json.bool (s'.precond == s.precond)),
@@ -45,16 +47,16 @@ def traceWith {π : Type} [BEq π] (sel : Selector π) (tok : Nat → π) (show_
       go (t + 1) s' es (acc.push o)
   Json.arr (go 0 { precond := tok 0, err := init } errs #[])
 
-def slotTrace (m : Mode) (thr : XF) (itv : Nat) (init : XF) (errs : List XF) (reuse : Bool) : Json :=
+def slotTrace (m : Mode) (thr : XF) (itv : Nat) (init : XF) (errs : List XF) (reuse : Bool) (rf : Option Nat) : Json :=
   match m with
   | .replicated =>
-      traceWith (π := Nat) select (fun t => t) (fun p => natsToJson [p]) thr itv init errs reuse
+      traceWith (π := Nat) select (fun t => t) (fun p => natsToJson [p]) thr itv init errs reuse rf
   | .quantized =>
       traceWith (π := Nat × Nat × Nat) selectTriple (fun t => (t, t, t))
-        (fun p => natsToJson [p.1, p.2.1, p.2.2]) thr itv init errs reuse
+        (fun p => natsToJson [p.1, p.2.1, p.2.2]) thr itv init errs reuse rf
   | .sharded =>
       traceWith (π := Vector Nat 2) selectWhere (fun t => #v[t, t]) (fun p => natsToJson p.toList)
-        thr itv init errs reuse
+        thr itv init errs reuse rf
 
 /-- replay the whole state (all slots, one counter) with `stateStep`: `errs[t][k]` is the error reported for slot `k`
 at step `t`; tokens as in `traceWith`. -/
@@ -128,7 +130,8 @@ def ops : List Op := [
     let errs ← asListOf asBits (← field j "errs")
     if itv = 0 then throw "itv must be >= 1"
     let reuse ← asBool (fieldD j "reuse" (Json.bool false))
-    pure (obj [("steps", slotTrace m thr itv init (errs.map XF.ofBits32) reuse)])),
+    let rfn ← asNat (fieldD j "reset" (toJson (0 : Nat)))
+    pure (obj [("steps", slotTrace m thr itv init (errs.map XF.ofBits32) reuse (if rfn = 0 then none else some rfn))])),
   ("state_trace", fun j => do
     let m ← parseMode (← getStr j "mode")
     let thr ← getXF32 j "thr"
